@@ -103,3 +103,61 @@ Section StagedDocs.
     rewrite Hcore_compose. reflexivity.
   Qed.
 End StagedDocs.
+
+(* Staged = compile for ALL sources, conditional on the lexer: once no token carries a non-finite float (the repair
+   proposed for F14: a number literal whose f64 value is not finite is a lexer error), the parser builds its value
+   from finite tokens only, and the resolver keeps values finite, the side condition of `staged_eq_direct` is
+   discharged for every source.  `parse` is `lex` followed by `parse_tokens`, as in prqlc_parser::parse_source. *)
+Section StagedLexer.
+  Variables src opts sql err errc tok : Type.
+  Variable E : env.
+  Variables dPL dRQ : desc.
+  Variable lex : src -> res err (list tok).
+  Variable parse_tokens : list tok -> res err value.
+  Variable tok_finite : tok -> bool.           (* the token is not a float literal whose value is inf / NaN *)
+  Variable resolve : value -> res err value.
+  Variable gen : opts -> value -> res err sql.
+  Variables tagNR tagSQL : err -> err.
+  Variable compose : src -> opts -> err -> err.
+  Variable compose1 : src -> err -> err.
+  Variable json_err : json -> err.
+  Variable core : err -> errc.
+
+  Definition parse_of (s : src) : res err value :=
+    match lex s with Ok ts => parse_tokens ts | Err e => Err e end.
+
+  Hypothesis Hschema : schema_ok E = true.
+  Hypothesis HdPL : desc_ok E dPL = true.
+  Hypothesis HdRQ : desc_ok E dRQ = true.
+  Hypothesis Hparse_wt : forall s v, parse_of s = Ok v -> wt E dPL v.
+  Hypothesis Hresolve_wt : forall v w, resolve v = Ok w -> wt E dRQ w.
+  Hypothesis Hcore_compose : forall s o e, core (compose s o e) = core e.
+  Hypothesis Hcore_compose1 : forall s e, core (compose1 s e) = core e.
+  (* the lexer condition (what fixes/F14-lexer-rejects-nonfinite-float.diff establishes) *)
+  Hypothesis Hlex_finite : forall s ts, lex s = Ok ts -> forallb tok_finite ts = true.
+  (* the parser invents no non-finite float; the resolver / lowerer neither (no constant folding of floats) *)
+  Hypothesis Hparse_finite : forall ts v, forallb tok_finite ts = true -> parse_tokens ts = Ok v -> json_ok v = true.
+  Hypothesis Hresolve_finite : forall v w, json_ok v = true -> resolve v = Ok w -> json_ok w = true.
+
+  Notation compile := (compile src opts sql err parse_of resolve gen tagNR tagSQL compose).
+  Notation staged := (staged src opts sql err E dPL dRQ parse_of resolve gen tagNR tagSQL compose1 json_err).
+
+  Lemma parse_of_finite s v : parse_of s = Ok v -> json_ok v = true.
+  Proof.
+    unfold parse_of. destruct (lex s) as [ts|e] eqn:El; [|discriminate].
+    intro H. exact (Hparse_finite ts v (Hlex_finite s ts El) H).
+  Qed.
+
+  Theorem staged_eq_direct_lexer : forall s o,
+    observe sql err errc core (staged s o) = observe sql err errc core (compile s o).
+  Proof.
+    intros s o.
+    apply (staged_eq_direct src opts sql err errc E dPL dRQ parse_of resolve gen tagNR tagSQL compose compose1
+             json_err core Hschema HdPL HdRQ Hparse_wt Hresolve_wt Hcore_compose Hcore_compose1 s o).
+    - intros v Hv. exact (parse_of_finite s v Hv).
+    - intros v w Hv Hw. exact (Hresolve_finite v w (parse_of_finite s v Hv) Hw).
+  Qed.
+
+  (* and the lexer condition is necessary for the parser's part: a token stream with a non-finite float literal that
+     the parser turns into a value with that float breaks the PL round trip (c15_roundtrip_refuted_nonfinite) *)
+End StagedLexer.
